@@ -8,6 +8,9 @@ package netpoll
 //   pool-resize        the poller pool is grown, shrunk (SetNumLoops smaller, applied by the next Pick), used, reset and
 //                      finally closed: every poller the pool ever opened is a lifecycle of the scenario and must have
 //                      closed both its descriptors at the end
+//   pool-init-race     after SetNumLoops(larger) sixteen goroutines released together call Initialize() / make the first
+//                      Picks; then the pool is used, shrunk, reset and closed as in pool-resize: every poller ever opened
+//                      is a declared lifecycle, the final census is the baseline
 //   netfd-close-race   several goroutines, released from a spin barrier, call Close on the SAME *netFD at the same
 //                      instant: the net.Conn that Listener.Accept returns, a bare netFD, and a connection
 //   dial-prebind-fails dials through DialTCP / DialUnix that fail BEFORE connect(2): local address in use, local address
@@ -26,6 +29,7 @@ import (
 	"runtime"
 	"strconv"
 	"strings"
+	"sync"
 	"sync/atomic"
 	"syscall"
 	"time"
@@ -109,6 +113,95 @@ func fdaPoolResizeScenario(x *fdaCtx) {
 	}
 	if x.rnd.Intn(2) == 0 {
 		// Reset: every poller is closed and the configured number opened again
+		for i := 0; i < fdaPoolSize(); i++ {
+			x.kind("poller 2")
+		}
+		if err := pollmanager.Reset(); err != nil {
+			x.failf("Reset: %v", err)
+			return
+		}
+		x.fdaUsePool(1)
+	}
+}
+
+// ---- pool-init-race ----
+
+// Start-up as applications do it: the pool is reconfigured (SetNumLoops larger), then several goroutines begin to use
+// netpoll at the same moment - some call the package-level Initialize() ("safe to call it multi times"), the others go
+// straight to what every dial / accept / NewFDConnection does first, pollmanager.Pick().  However these calls interleave,
+// every poller that gets opened must belong to the pool (one `poller` lifecycle per missing poller, declared before the
+// release): the pool is then used, shrunk, in the end reset / closed as in pool-resize, and the final census must be the
+// baseline - a poller opened by a caller that lost the race is owned by nobody and its two descriptors stay.
+func fdaPoolInitRaceScenario(x *fdaCtx) {
+	x.usePollManager()
+	x.know("conn_detach", false)
+	x.know("conn_viaServer", false)
+	x.know("prepare_closes", false)
+	n0 := fdaPoolSize()
+	if n0 == 0 {
+		x.failf("pool did not start")
+		return
+	}
+	const callers = 16
+	rounds := 3 + x.rnd.Intn(2)
+	for r := 0; r < rounds; r++ {
+		big := fdaPoolSize() + 8 + x.rnd.Intn(17)
+		for i := fdaPoolSize(); i < big; i++ {
+			x.kind("poller 2")
+		}
+		if err := SetNumLoops(big); err != nil {
+			x.failf("SetNumLoops(%d): %v", big, err)
+			return
+		}
+		ninit := 1 + x.rnd.Intn(callers-1) // 1..15 callers of Initialize, the others Pick
+		var wg sync.WaitGroup
+		var ready, flag int32
+		start := make(chan struct{})
+		var nilPicks int32
+		for i := 0; i < callers; i++ {
+			wg.Add(1)
+			go func(i int) {
+				defer wg.Done()
+				defer func() {
+					if e := recover(); e != nil {
+						x.failf("pool-init-race: caller %d panicked: %v", i, e)
+					}
+				}()
+				atomic.AddInt32(&ready, 1)
+				<-start
+				// a short spin after the wake-up brings the callers closer together than the channel alone
+				for j := 0; j < 2000 && atomic.LoadInt32(&flag) == 0; j++ {
+				}
+				if i*ninit/callers != (i+1)*ninit/callers { // ninit of the callers, spread evenly
+					Initialize()
+				} else if pollmanager.Pick() == nil {
+					atomic.AddInt32(&nilPicks, 1)
+				}
+			}(i)
+		}
+		fdaWait(func() bool { return atomic.LoadInt32(&ready) == callers }, 8*time.Second)
+		close(start)
+		atomic.StoreInt32(&flag, 1)
+		wg.Wait()
+		if nilPicks > 0 {
+			x.failf("pool-init-race: %d first Picks returned nil", nilPicks)
+		}
+		if got := fdaPoolSize(); got != big {
+			x.failf("pool has %d pollers after SetNumLoops(%d) and %d concurrent Initialize/Pick", got, big, callers)
+			return
+		}
+		x.fdaUsePool(1)
+		// shrink again (applied by the next Pick), sometimes in two steps
+		small := 1 + x.rnd.Intn(n0+1)
+		if x.rnd.Intn(3) == 0 && !x.fdaSetLoops(small+(big-small)/2) {
+			return
+		}
+		if !x.fdaSetLoops(small) {
+			return
+		}
+		x.fdaUsePool(1)
+	}
+	if x.rnd.Intn(2) == 0 {
 		for i := 0; i < fdaPoolSize(); i++ {
 			x.kind("poller 2")
 		}
@@ -441,6 +534,7 @@ func fdaSelfConnectScenario(x *fdaCtx) {
 func fdaMoreScenarios() []fdaScenario {
 	return []fdaScenario{
 		{name: "pool-resize", run: fdaPoolResizeScenario},
+		{name: "pool-init-race", run: fdaPoolInitRaceScenario},
 		{name: "netfd-close-race", run: fdaNetFDCloseRaceScenario, quiet: true},
 		{name: "dial-prebind-fails", run: fdaDialPrebindFailScenario, noExpect: []string{"spuriousENOTAVAIL"}},
 		{name: "dial-selfconnect", run: fdaSelfConnectScenario, netns: true, noExpect: []string{"selfConnect"}},
